@@ -258,6 +258,38 @@ def check_tree(R, d, tree, rng, tag):
     for (s, t), a, b in zip(nodes, before, after):
         if a != b:
             return ('operand-altered', "%s: combining/copying/evaluating changed the operand %s" % (tree.name(), t.name()))
+    # the numerical values change (everything above was evaluated, hence memoised, before): every combination must still be the
+    # combination of its parts as they answer now - no part may answer from before the change
+    restore = {}
+    for cid in d.main_components:
+        arr = np.asarray(d[cid])
+        if arr.dtype.kind in 'fi' and arr.size > 1:
+            restore[cid] = arr.copy()
+    if restore:
+        try:
+            d.update_components({cid: a.ravel()[::-1].reshape(a.shape).copy() for cid, a in restore.items()})
+            for s, t in nodes:
+                kids = children(s)
+                if not kids:
+                    continue
+                try:
+                    m = np.asarray(s.to_mask(d))
+                    km = [np.asarray(k.to_mask(d)) for k in kids]
+                except Exception as e:
+                    return ('exception:%s' % type(e).__name__, "%s after a value update raised %s: %s" % (t.name(), type(e).__name__, e))
+                if t.op == '~':
+                    exp2 = ~km[0]
+                elif t.op == 'multi':
+                    exp2 = km[0].copy()
+                    for p_ in km[1:]:
+                        exp2 = exp2 | p_
+                else:
+                    exp2 = OPS[t.op][1](km[0], km[1])
+                if not np.array_equal(m, exp2):
+                    return ('after-value-update', "%s: after the data values were replaced the combination gives %s but its parts now combine to %s"
+                            % (t.name(), m.astype(int).ravel().tolist(), exp2.astype(int).ravel().tolist()))
+        finally:
+            d.update_components(restore)
     return None
 
 
@@ -326,13 +358,55 @@ def edit_mode_sequences(R, rng, tier):
                 R.fail("edit-mode|%s|%s" % (ok[0], '+'.join(sorted(set(seq)))), ok[1], None)
 
 
+def edit_modes_on_untouched_group(R):
+    """a subset group that was created without a selection (new_subset_group()) is the empty selection: and / and-not keep it empty,
+    or / xor / replace give the new selection"""
+    from glue.core import DataCollection
+    from glue.core import edit_subset_mode as M
+    from glue.core.subset import SubsetState
+    modes = {'replace': (M.ReplaceMode, lambda o, n: n), 'and': (M.AndMode, lambda o, n: o & n), 'or': (M.OrMode, lambda o, n: o | n),
+             'xor': (M.XorMode, lambda o, n: o ^ n), 'andnot': (M.AndNotMode, lambda o, n: o & ~n)}
+    for di in (0, 1):
+        for start in ('new_subset_group()', 'replaced-by-SubsetState()', 'cleared-by-empty-inequality'):
+            for m1, m2 in itertools.product(list(modes), repeat=2):
+                d = datasets()[di]
+                lv = leaves(d)[:4]
+                dc = DataCollection([d])
+                esm = M.EditSubsetMode()
+                esm.data_collection = dc
+                g = dc.new_subset_group('g')
+                if start == 'replaced-by-SubsetState()':
+                    g.subset_state = lv[0][1]()
+                    g.subset_state = SubsetState()
+                elif start == 'cleared-by-empty-inequality':
+                    g.subset_state = lv[0][1]() & ~lv[0][1]()
+                esm.edit_subset = [g]
+                ref = np.zeros(d.shape, bool)
+                bad = None
+                for k, (mname, lf) in enumerate(zip((m1, m2), (lv[1], lv[2]))):
+                    try:
+                        esm.update(dc, lf[1](), override_mode=modes[mname][0])
+                    except Exception as e:
+                        bad = "mode %s raised %s: %s" % (mname, type(e).__name__, e)
+                        break
+                    ref = modes[mname][1](ref, np.asarray(lf[2], bool))
+                    got = np.asarray(g.subsets[0].to_mask())
+                    if not np.array_equal(got, ref):
+                        bad = "after %s with %s the group selects %s, expected %s" % (mname, lf[0], got.astype(int).ravel().tolist(), ref.astype(int).ravel().tolist())
+                        break
+                R.count(('untouched', di, start, m1, m2), 'edit-mode-sequences')
+                if bad:
+                    R.fail("edit-mode|untouched-group|%s|%s" % (start.split('(')[0], m1 if 'after %s' % m1 in bad or 'mode %s' % m1 in bad else m2),
+                           "group in state %s on %s, modes (%s, %s): %s" % (start, d.label, m1, m2, bad), None)
+
+
 def run(tier, seed, R):
     rng = random.Random(seed)
     R.rule = ("real datasets (1-d with NaN/inf/categorical/derived, 2-d with affine coordinates, 3-d) x leaf kinds "
               "{range, multirange, inequality (number, cid-cid), rectangle, circle, category, categorical ROI, element, mask, slice, pixel, world, derived, empty}: "
               "ALL trees of depth 1 over {&,|,^,~}, all many-way ors of 1-3 members, seeded random trees of depth 2-3 (4 thorough); contract checked at every node "
               "(mask == element-wise combination of reference masks, shape, dtype), in permuted order, twice, through Data.get_mask and through a copy; deep fingerprint of "
-              "every operand unchanged; all edit-mode sequences of length 3. non-trivial = distinct tree whose reference mask is neither empty nor full")
+              "every operand unchanged; after the data values are replaced every node equals the combination of its parts as they answer now; all edit-mode sequences of length 3; all pairs of edit modes on a group that was never given a selection (new_subset_group(), SubsetState(), x & ~x). non-trivial = distinct tree whose reference mask is neither empty nor full")
     R.exhaustive = True
 
     def one(d, tree, tag):
@@ -373,4 +447,5 @@ def run(tier, seed, R):
         for _ in range(400 if tier == 'quick' else 4000):
             one(d, rnd(rng.randint(2, maxd)), 'random')
     edit_mode_sequences(R, rng, tier)
+    edit_modes_on_untouched_group(R)
     R.samples.append({"tree": "d1: ((range&~circle)|multi(category,gt,slice)) - every node compared with the element-wise reference, twice, permuted order"})
